@@ -171,6 +171,11 @@ Qed.
 Corollary sp_elem_laws r cm fl tbl : 0 < r -> (forall k p, In (k, p) tbl -> (0 < p)%Z) -> laws (sp_elem r cm fl tbl).
 Proof. intros R P. apply mq_elem_laws. apply sp_cfg_ok; assumption. Qed.
 
+Corollary rr_elem_laws r fl : 0 < r -> laws (rr_elem r fl).
+Proof. intros R. apply mq_elem_laws. apply rr_cfg_ok; assumption. Qed.
+Corollary wrr_elem_laws r ws : 0 < r -> (forall f w, In (f, w) ws -> (0 < w)%Z) -> laws (wrr_elem r ws).
+Proof. intros R P. apply mq_elem_laws. apply wrr_cfg_ok; assumption. Qed.
+
 Theorem mq_elem_timed c : timed (mq_elem c).
 Proof.
   repeat split.
